@@ -414,7 +414,7 @@ class Session:
                 return "valid"
             goal = gpos
         goal0 = goal
-        goal = self.rewrite_exp_atoms(goal)
+        goal = self.rewrite_sqrt_atoms(self.rewrite_exp_atoms(goal))
         if goal is not goal0:
             if goal is T.TRUE or self.q.identity(goal):
                 self.discharged += 1
@@ -471,6 +471,46 @@ class Session:
                 return goal
             (goal,) = T.substitute([goal], mp)
         return goal
+
+    def rewrite_sqrt_atoms(self, goal: T.Term) -> T.Term:
+        """Square-root lemmas: for two atoms SQRT[a], SQRT[b] of the goal whose product is (guessed from
+        the concrete valuation, then proved by the solver: a*b == r^2) a product r of at most two
+        positive parameters, SQRT[a] is rewritten to r / SQRT[b]."""
+        ctx = self.ctx
+        syms = T.free_symbols([goal])
+        sq = []
+        for s_ in syms:
+            d = ctx.atom_def.get(s_)
+            if s_.op == "atom" and d is not None and d[0] == "sqrt":
+                sq.append((s_, d[1], float(ctx.env[s_])))
+        if len(sq) < 2:
+            return goal
+        sq.sort(key=lambda a: a[0].id)
+        pos = sorted([v for v in syms if v.op == "var" and v in ctx.positive_vars], key=lambda v: v.id)
+        cands = [(T.ONE, 1.0)] + [(p_, float(ctx.env[p_])) for p_ in pos]
+        for i in range(len(pos)):
+            for j in range(i, len(pos)):
+                cands.append((T.mul(pos[i], pos[j]), float(ctx.env[pos[i]]) * float(ctx.env[pos[j]])))
+        mapping = {}
+        used = set()
+        for i in range(len(sq)):
+            if sq[i][0] in used:
+                continue
+            for j in range(i + 1, len(sq)):
+                if sq[j][0] in used or sq[i][0] in used:
+                    continue
+                v = sq[i][2] * sq[j][2]
+                for r, rv in cands:
+                    if abs(v - rv) <= 1e-9 * max(1.0, abs(v)) and ctx.prove_equal(T.mul(sq[i][1], sq[j][1]), T.mul(r, r)):
+                        mapping[sq[i][0]] = T.div(r, sq[j][0])
+                        used.add(sq[i][0])
+                        used.add(sq[j][0])
+                        self.exp_lemmas += 1
+                        break
+        if not mapping:
+            return goal
+        (g2,) = T.substitute([goal], mapping)
+        return g2
 
     def rewrite_exp_atoms(self, goal: T.Term) -> T.Term:
         """Exponent lemmas: an atom E[c] whose exponent the solver proves equal to c_a + c_b (+ c_d) for
